@@ -738,6 +738,19 @@ std::vector<ImportSourcePtr> getAllImportSources(const ModelConstPtr &model);
 IndexStack indexStackOf(const ComponentPtr &component);
 
 /**
+ * @brief Make cloned entities share import sources the way the original entities do.
+ *
+ * A cloned entity has its own copy of the import source of the entity it was cloned from.
+ * Where several original entities share one import source, make their clones share one copy.
+ *
+ * @param original The original units or component.
+ * @param clone The clone of the original.
+ * @param map The map from original import sources to the copy used by the clones so far.
+ */
+void shareClonedImportSources(const UnitsConstPtr &original, const UnitsPtr &clone, ImportSourceMap &map);
+void shareClonedImportSources(const ComponentConstPtr &original, const ComponentPtr &clone, ImportSourceMap &map);
+
+/**
  * @brief Create a history epoch for a @ref Units with optional destination URL.
  *
  * Create a history epoch for a @ref Units.  If a destination URL is not given
